@@ -1404,6 +1404,30 @@ def str_eq(vm, m, callee, args):
     return (a == b) if callee.endswith('::eq') else (a != b)
 
 
+# trimming and case folding are uninterpreted functions on string identities: trim("") = "", trim("NULL") = "NULL",
+# trim is idempotent, printed scalars contain no blanks; nothing says trim(s) != "" for s != "", so a blank-only string is
+# a possible value of a symbolic string (the witness is then mapped to " ").
+STR_TRIM = Function('str_trim', IntSort(), IntSort())
+STR_EQIC = Function('str_eq_ignore_case', IntSort(), IntSort(), BoolSort())
+STR_AXIOMS.append(And(STR_TRIM(IntVal(0)) == 0, STR_TRIM(IntVal(1)) == 1))
+
+
+@native(r'^core::str::<impl str>::trim(_start|_end)?$', 'str::trim / trim_start / trim_end: an uninterpreted idempotent function fixing "" and "NULL" (one function stands for the three)')
+def str_trim(vm, m, callee, args):
+    sid = sid_of(vm, args[0])
+    t = STR_TRIM(sid)
+    STR_AXIOMS.append(STR_TRIM(t) == t)
+    return sym_str(t)
+
+
+@native(r'^core::str::<impl str>::eq_ignore_ascii_case$', 'str::eq_ignore_ascii_case: an uninterpreted reflexive, symmetric relation containing equality; "" is only related to itself')
+def str_eqic(vm, m, callee, args):
+    a, b = sid_of(vm, args[0]), sid_of(vm, args[1])
+    r = STR_EQIC(a, b)
+    STR_AXIOMS.append(And(Or(a != b, r), r == STR_EQIC(b, a), Or(Not(r), (a == 0) == (b == 0))))
+    return r
+
+
 @native(r'^core::str::<impl str>::is_empty$|^std::string::String::is_empty$', 'str::is_empty')
 def str_is_empty(vm, m, callee, args):
     return sid_of(vm, args[0]) == 0
@@ -1418,7 +1442,7 @@ def scalar_to_string(vm, m, callee, args):
     ps, pf = parse_fns(ty)
     val = v.v if isinstance(v, BV) else bool_(v)
     # defining axioms of the fresh string: kept globally (the call may run inside a nested closure evaluation)
-    STR_AXIOMS.append(And(s >= 2, ps(s), pf(s) == val))
+    STR_AXIOMS.append(And(s >= 2, ps(s), pf(s) == val, STR_TRIM(s) == s))
     return sym_str(s)
 
 
